@@ -13,4 +13,4 @@ mod c36;
 #[cfg(kani)]
 mod c37;
 #[cfg(kani)]
-mod probe;
+mod c38;
